@@ -2,7 +2,7 @@ From Coq Require Import List ZArith Bool.
 From Coq.Strings Require Import Byte.
 Import ListNotations.
 From Zap Require Import Base.Wire Enc.Bytes Enc.Fields Enc.JsonEnc Enc.JsonParse Enc.WireEnc Enc.JsonAst Enc.Wf Enc.Console
-  Enc.Parse3 Enc.Parse4 Enc.ConsoleProof C16.Model.
+  Enc.Parse3 Enc.Parse4 Enc.ConsoleProof C16.Model C16.Conc C16.ConcProofs.
 
 Theorem wire_thm i : wf i = true -> spec i (model i) = true.
 Proof.
@@ -20,3 +20,14 @@ Lemma ctx_members c : q_layout_escaped c = true -> forall ctxs fs, forallb wf_fl
 Proof.
   intros Hl ctxs fs Hc Hf. apply tpre_close. apply ev_flds_pre; [exact Hl|now apply wf_owf_flds|]. apply with_chain_pre; [exact Hl|now apply wf_owf_ctxs].
 Qed.
+
+(* ---- concurrent use (machine in C16/Conc.v, ownership proof in C16/ConcProofs.v) ----
+   The row (i, line) the harness emits for an encode of case i made while other goroutines encode other cases
+   is judged by the same wire functions: the machine says the line is `model i`, and the oracle accepts it. *)
+Theorem conc_wire jobs sched t out i : jobs t = case_job i ->
+  pcs (run jobs true sched init) t = PDone out -> model i = SL [SB out].
+Proof. intros Ej H. rewrite (conc_safe _ _ _ _ H), Ej. reflexivity. Qed.
+
+Theorem conc_wire_spec jobs sched t out i : wf i = true -> jobs t = case_job i ->
+  pcs (run jobs true sched init) t = PDone out -> spec i (SL [SB out]) = true.
+Proof. intros Hw Ej H. rewrite <- (conc_wire _ _ _ _ _ Ej H). now apply wire_thm. Qed.
